@@ -72,6 +72,7 @@ loadsize:装载字节数
 void sha256hash::getHash(const u8_t *input, u32_t final_loadsize)
 {
   addtotal(final_loadsize);
+  const u64_t bitlen = totalsize; // message length; hashing the extra padding block below must not count
   u8_t *temp = new u8_t[getblen()];
   memset(temp, 0, getblen());
   memcpy(temp, input, final_loadsize);
@@ -83,7 +84,7 @@ void sha256hash::getHash(const u8_t *input, u32_t final_loadsize)
   }
   for (int i = 0; i < 8; ++i)
   {
-    temp[56 + i] = (u8_t)(((u64_t)totalsize >> ((7 - i) << 3)));
+    temp[56 + i] = (u8_t)((bitlen >> ((7 - i) << 3)));
   }
   getHash(temp);
   delete[] temp;
